@@ -1005,7 +1005,7 @@ def main(listenip_v6, listenip_v4,
     feature_status("User", required.user, avail.user)
 
     # Exclude traffic destined to our listen addresses.
-    if required.ipv4 and \
+    if required.ipv4 and listenip_v4 and \
             not any(listenip_v4[0] == sex[1] for sex in subnets_v4):
         subnets_exclude.append((socket.AF_INET, listenip_v4[0], 32, 0, 0))
 
